@@ -1,4 +1,4 @@
-import JoblibProofs.Lemmas.ParallelProto.StepsS
+import JoblibProofs.Lemmas.ParallelProto.StepsU
 /-!
 `dispatchLocked` (the locked region of `dispatch_one_batch`) preserves the invariant; what else it guarantees.
 -/
@@ -64,6 +64,8 @@ structure DLSpec (c : Cfg) (t0 : Nat) (fo : Bool) (s s' : St) (more : Bool) : Pr
   work_le : work s' ≤ work s
   pre_orig : fo = true → s'.preLeft = s.preLeft
   pre_nomore : more = false → s'.preLeft = s.preLeft
+  rlen : ordered c = true →
+    (JoblibModel.ParallelProto.restS s').length ≤ (JoblibModel.ParallelProto.restS s).length
 
 theorem map_items_push {s s' : St} {t : Tracker} (h : s'.trk = s.trk ++ [t]) {l : List Nat}
     (hl : ∀ i ∈ l, i < s.trk.length) :
@@ -111,7 +113,7 @@ theorem dlspec_push {c : Cfg} {t0 : Nat} {fo : Bool} {s s' : St}
     (by omega) (by intro _ i hi; rw [hg]; simp [hi])
   refine ⟨hT', hS', hL', hP', hframe, fun i hi => by rw [hg]; simp [hi], by omega, by simp, ?_, ?_, ?_, ?_,
     hsame, by simp, fun ho => ⟨[s.trk.length], by rw [hjobs]; simp [ho]⟩, fun h1 h2 => (hnexh h1 h2).elim,
-    by rw [hpos]; omega, by simp only [work, hready, hpos, hframe.spec]; omega, hpreo, by simp⟩
+    by rw [hpos]; omega, by simp only [work, hready, hpos, hframe.spec]; omega, hpreo, by simp, ?_⟩
   · intro _ _
     exact ⟨s.trk.length, hT.t0_le, by omega, by rw [hg]; simp [newTrk]⟩
   · intro _
@@ -120,6 +122,22 @@ theorem dlspec_push {c : Cfg} {t0 : Nat} {fo : Bool} {s s' : St}
   · intro _ _
     simp only [work, hready, hpos, hframe.spec]; omega
   · intro ho _
+    simp only [restS, hjobs, ho, if_true, hready, hpos, hframe.base, hframe.spec, List.map_append,
+      List.flatten_append, List.map_cons, List.map_nil, List.flatten_cons, List.flatten_nil, List.append_nil]
+    rw [map_items_push htrk (fun i hi => (hT.jobs_own i hi).2)]
+    have : (getTrk s' s.trk.length).items = tasks := by rw [hg]; simp [newTrk]
+    rw [this]
+    have hr : List.range' (s.base + s.srcPos) (s.spec.n - s.srcPos) =
+        List.range' (s.base + s.srcPos) m ++ List.range' (s.base + (s.srcPos + m)) (s.spec.n - (s.srcPos + m)) := by
+      rw [show s.base + (s.srcPos + m) = s.base + s.srcPos + 1 * m by omega, List.range'_append]
+      congr 1; omega
+    rw [hr]
+    simp only [List.append_assoc]
+    rw [← List.append_assoc tasks, hsplit]
+    simp [List.append_assoc]
+  · intro ho
+    apply Nat.le_of_eq
+    congr 1
     simp only [restS, hjobs, ho, if_true, hready, hpos, hframe.base, hframe.spec, List.map_append,
       List.flatten_append, List.map_cons, List.map_nil, List.flatten_cons, List.flatten_nil, List.append_nil]
     rw [map_items_push htrk (fun i hi => (hT.jobs_own i hi).2)]
@@ -149,6 +167,24 @@ theorem set_append_last {α : Type} (l : List α) (t t' : α) : (l ++ [t]).set l
   induction l with
   | nil => simp
   | cons x xs ih => simp [ih]
+
+theorem restS_length (s : St) : (restS s).length =
+    ((s.jobs.map (fun i => (getTrk s i).items)).flatten).length + s.ready.flatten.length +
+      (s.spec.n - s.srcPos) := by
+  simp only [restS, List.length_append, List.length_range']
+
+theorem rlen_push_empty {s s' : St} {t : Tracker} (htrk : s'.trk = s.trk ++ [t]) (hti : t.items = [])
+    (hjobs : s'.jobs = s.jobs ++ [s.trk.length]) (hown : ∀ i ∈ s.jobs, i < s.trk.length)
+    (hready : s'.ready = s.ready) (hpos : s.srcPos ≤ s'.srcPos) (hspec : s'.spec = s.spec) :
+    (restS s').length ≤ (restS s).length := by
+  rw [restS_length, restS_length, hjobs, hready, hspec]
+  simp only [List.map_append, List.flatten_append, List.map_cons, List.map_nil, List.flatten_cons,
+    List.flatten_nil, List.append_nil, List.length_append]
+  rw [map_items_push htrk hown]
+  have : (getTrk s' s.trk.length).items = [] := by rw [getTrk_push htrk]; simp [hti]
+  rw [this]
+  simp only [List.length_nil]
+  omega
 
 /-- The case where the input iterable raised while being sliced. -/
 theorem dlspec_raise {c : Cfg} {t0 : Nat} {fo : Bool} {s s1 : St} {bs m : Nat} {d : Bool} {pl : Option Nat}
@@ -196,7 +232,7 @@ theorem dlspec_raise {c : Cfg} {t0 : Nat} {fo : Bool} {s s1 : St} {bs m : Nat} {
       hframe.calling, fun _ => rfl⟩, ?_, ?_, by simp, by simp, by simp, by simp, by simp, hsame, by simp,
     fun ho => ⟨[s.trk.length], by show (if ordered c then s1.jobs else s1.jobs ++ [s.trk.length]) = _; rw [hjobs]⟩,
     fun _ h2 => by have := (hps.dead_mono h2).2.2; simp at this, ?_, ?_,
-    fun hfo => by show s1.preLeft = _; rw [hpl]; exact hps.pl_orig hfo, by simp⟩
+    fun hfo => by show s1.preLeft = _; rw [hpl]; exact hps.pl_orig hfo, by simp, ?_⟩
   · intro i hi
     rw [getTrk_push (s := s) htrk']; simp [hi]
   · show s.trk.length ≤ (s1.trk.set _ _).length
@@ -205,6 +241,10 @@ theorem dlspec_raise {c : Cfg} {t0 : Nat} {fo : Bool} {s s1 : St} {bs m : Nat} {
     rw [hpos]; omega
   · show s1.ready.length + (s1.spec.n - s1.srcPos) ≤ s.ready.length + (s.spec.n - s.srcPos)
     rw [hready, hpos, hframe.spec]; omega
+  · intro _
+    exact rlen_push_empty (t := { errTrk s bs with status := .error, result := .exc (.iter (s.base + (s.srcPos + m))) })
+      htrk' rfl hjobs (fun i hi => (hT.jobs_own i hi).2) hready (by show s.srcPos ≤ s1.srcPos; rw [hpos]; omega)
+      hframe.spec
 
 theorem dispatchLocked_dlspec {c : Cfg} (hc : CfgOK c) {t0 : Nat} {fo : Bool} {bs : Nat} {s : St}
     (hbs : 1 ≤ bs) (hT : InvT c t0 none s) (hS : InvS c t0 s) (hL : InvL c t0 s) (hna : s.aborting = false) :
@@ -251,7 +291,8 @@ theorem dispatchLocked_dlspec {c : Cfg} (hc : CfgOK c) {t0 : Nat} {fo : Bool} {b
       refine ⟨hT', hS', hL', hP', ⟨rfl, rfl, rfl, rfl, rfl, rfl, rfl, rfl, id⟩, fun i _ => rfl, Nat.le_refl _, ?_,
         by simp, fun _ => Nat.le_refl _, by simp, fun _ _ => rfl,
         ⟨rfl, rfl, rfl, rfl, rfl, rfl, rfl, rfl, rfl, rfl, rfl⟩, fun _ => hna, fun _ => ⟨[], by simp⟩,
-        fun h1 h2 => ⟨h1, (hps.dead_mono h2).1, rfl⟩, Nat.le_refl _, Nat.le_refl _, hps.pl_orig, ?_⟩
+        fun h1 h2 => ⟨h1, (hps.dead_mono h2).1, rfl⟩, Nat.le_refl _, Nat.le_refl _, hps.pl_orig, ?_,
+        fun _ => Nat.le_refl _⟩
       · intro _ _
         refine ⟨hrd, ?_⟩
         have hk : 0 < bs * c.nj := Nat.mul_pos (by omega) (by have := hc.nj; omega)
@@ -299,5 +340,248 @@ theorem dispatchLocked_dlspec {c : Cfg} (hc : CfgOK c) {t0 : Nat} {fo : Bool} {b
         (by by_cases ho : ordered c = true <;> simp [ho])
         rfl rfl rfl rfl ⟨rfl, rfl, rfl, rfl, rfl, rfl, rfl, rfl, fun h => h⟩
         ⟨rfl, rfl, rfl, rfl, rfl, rfl, rfl, rfl, rfl, rfl, rfl⟩
+
+/-! ### size bounds (C09) through `dispatchLocked` -/
+
+theorem ownParked_append (t0 : Nat) (s s' : St) (i : Nat) (h : s'.parked = s.parked ++ [i]) :
+    ownParked t0 s' ≤ ownParked t0 s + 1 ∧ (t0 ≤ i → ownParked t0 s' = ownParked t0 s + 1) := by
+  simp only [ownParked, h, List.filter_append, List.length_append]
+  by_cases hi : t0 ≤ i <;> simp [hi]
+
+theorem flatten_length_cons_le (b : List Nat) (bs : List (List Nat)) :
+    bs.flatten.length ≤ (b :: bs).flatten.length := by simp
+
+theorem dispatchLocked_B {c : Cfg} {t0 : Nat} {fo : Bool} {bs : Nat} {s : St}
+    (hbs : bs ≤ bmax c) (hS : InvS c t0 s) (hna : s.aborting = false)
+    (hB : InvB c t0 s)
+    (hslack : c.pdMode ≠ 1 → fo = true → ∃ r, s.preLeft = some r ∧
+      s.srcPos + r + c.nj * bmax c ≤ c.pd + s.nCompleted * (c.nj * bmax c)) :
+    InvB c t0 (dispatchLocked c fo bs s).1 ∧
+    ownParked t0 (dispatchLocked c fo bs s).1 ≤ ownParked t0 s + 1 := by
+  have hmb : max 1 bs ≤ bmax c := by have := one_le_bmax c; omega
+  have hkb : bs * c.nj ≤ c.nj * bmax c := by rw [Nat.mul_comm]; exact Nat.mul_le_mul_left _ hbs
+  -- the budget after slicing `m` items
+  have hbud : ∀ (m : Nat) (d : Bool) (pl : Option Nat) (r : Bool), PullSpec fo (bs * c.nj) s m d pl r →
+      c.pdMode ≠ 1 → ∃ q, pl = some q ∧ s.srcPos + m + q ≤ c.pd + s.nCompleted * (c.nj * bmax c) := by
+    intro m d pl r hps hm
+    obtain ⟨q, hq, hqb⟩ := hB.budget hm
+    cases hfo : fo with
+    | true =>
+      obtain ⟨q', hq', hqb'⟩ := hslack hm hfo
+      rw [hq] at hq'; simp only [Option.some.injEq] at hq'; subst hq'
+      refine ⟨q, by rw [hps.pl_orig hfo, hq], ?_⟩
+      have := hps.m_le
+      omega
+    | false =>
+      obtain ⟨h1, h2⟩ := hps.pl_some hfo q hq
+      exact ⟨q - m, h2, by omega⟩
+  rcases dispatchLocked_spec c fo bs s hna hS.ready_ne with
+    ⟨tasks, rest, hrd, he⟩ | ⟨hrd, lg, m, d, pl, r, hps, hcases⟩
+  · obtain ⟨lg, hd⟩ := dispatch_eq (c := c) (s := { s with ready := rest }) tasks hna
+    rw [he, hd]
+    have hg := getTrk_push (s := s) (s' := { s with ready := rest, log := lg, nDispTasks := s.nDispTasks + tasks.length, nDispBatches := s.nDispBatches + 1, trk := s.trk ++ [newTrk { s with ready := rest } tasks], jobs := if ordered c then s.jobs ++ [s.trk.length] else s.jobs, jobsSet := if ordered c then s.jobsSet else s.jobsSet ++ [s.trk.length], parked := s.parked ++ [s.trk.length] }) rfl
+    refine ⟨⟨?_, ?_, ?_, hB.budget⟩, (ownParked_append t0 s _ s.trk.length rfl).1⟩
+    · intro i hi hi'
+      simp only [List.length_append, List.length_cons, List.length_nil] at hi'
+      rw [hg]
+      by_cases hlt : i < s.trk.length
+      · simp only [hlt, if_true]; exact hB.items_le i hi hlt
+      · have : i = s.trk.length := by omega
+        subst this
+        simp only [Nat.lt_irrefl, if_false, if_true, newTrk]
+        exact hB.ready_le tasks (by rw [hrd]; simp)
+    · intro b hb; exact hB.ready_le b (by rw [hrd]; simp [hb])
+    · have := hB.ready_tot
+      rw [hrd] at this
+      exact Nat.le_trans (flatten_length_cons_le tasks rest) this
+  · rcases hcases with ⟨hr, hm, he⟩ | ⟨hr, hm, tasks, rest, htn, hrest, hsplit, hlens, he⟩ | ⟨hr, he⟩
+    · subst hr; subst hm
+      rw [he]
+      refine ⟨⟨hB.items_le, hB.ready_le, hB.ready_tot, ?_⟩, Nat.le_succ _⟩
+      intro hmode
+      obtain ⟨q, hq, hqb⟩ := hbud 0 d pl false hps hmode
+      exact ⟨q, hq, hqb⟩
+    · subst hr
+      obtain ⟨lg2, hd⟩ := dispatch_eq (c := c)
+        (s := { s with log := lg, srcPos := s.srcPos + m, srcDead := d, preLeft := pl, ready := rest }) tasks hna
+      rw [he, hd]
+      have hg := getTrk_push (s := s) (s' := { s with log := lg2, srcPos := s.srcPos + m, srcDead := d, preLeft := pl, ready := rest, nDispTasks := s.nDispTasks + tasks.length, nDispBatches := s.nDispBatches + 1, trk := s.trk ++ [newTrk { s with log := lg, srcPos := s.srcPos + m, srcDead := d, preLeft := pl, ready := rest } tasks], jobs := if ordered c then s.jobs ++ [s.trk.length] else s.jobs, jobsSet := if ordered c then s.jobsSet else s.jobsSet ++ [s.trk.length], parked := s.parked ++ [s.trk.length] }) rfl
+      refine ⟨⟨?_, ?_, ?_, ?_⟩, (ownParked_append t0 s _ s.trk.length rfl).1⟩
+      · intro i hi hi'
+        simp only [List.length_append, List.length_cons, List.length_nil] at hi'
+        rw [hg]
+        by_cases hlt : i < s.trk.length
+        · simp only [hlt, if_true]; exact hB.items_le i hi hlt
+        · have : i = s.trk.length := by omega
+          subst this
+          simp only [Nat.lt_irrefl, if_false, if_true, newTrk]
+          exact Nat.le_trans (hlens tasks (by simp)) hmb
+      · intro b hb; exact Nat.le_trans (hlens b (by simp [hb])) hmb
+      · have h1 : rest.flatten.length ≤ (tasks ++ rest.flatten).length := by simp
+        rw [hsplit] at h1
+        simp only [List.length_range'] at h1
+        have := hps.m_le
+        show rest.flatten.length ≤ _
+        omega
+      · intro hmode
+        exact hbud m d pl false hps hmode
+    · subst hr
+      rw [he]
+      have hpend : getTrk { s with log := lg, srcPos := s.srcPos + m, srcDead := d, preLeft := pl, trk := s.trk ++ [errTrk s bs], jobs := if ordered c then s.jobs ++ [s.trk.length] else s.jobs, jobsSet := if ordered c then s.jobsSet else s.jobsSet ++ [s.trk.length] } s.trk.length = errTrk s bs := by
+        rw [getTrk_push (s := s) rfl]; simp
+      rw [registerOutcome_error (by rw [hpend]; rfl), hpend]
+      refine ⟨⟨?_, hB.ready_le, hB.ready_tot, ?_⟩, Nat.le_succ _⟩
+      · intro i hi hi'
+        simp only [List.length_set, List.length_append, List.length_cons, List.length_nil] at hi'
+        rw [getTrk_set (s := { s with log := lg, srcPos := s.srcPos + m, srcDead := d, preLeft := pl, trk := s.trk ++ [errTrk s bs], jobs := if ordered c then s.jobs ++ [s.trk.length] else s.jobs, jobsSet := if ordered c then s.jobsSet else s.jobsSet ++ [s.trk.length] }) rfl]
+        by_cases hlt : i < s.trk.length
+        · have hne : s.trk.length ≠ i := by omega
+          simp only [hne, false_and, if_false]
+          rw [getTrk_push (s := s) rfl]
+          simp only [hlt, if_true]
+          exact hB.items_le i hi hlt
+        · have : i = s.trk.length := by omega
+          subst this
+          simp [errTrk]
+      · intro hmode
+        exact hbud m d pl true hps hmode
+
+/-- `dispatchLocked` parks at most one more batch. -/
+theorem ownParked_dispatchLocked {c : Cfg} {t0 : Nat} {fo : Bool} {bs : Nat} {s : St}
+    (hS : InvS c t0 s) (hna : s.aborting = false) :
+    ownParked t0 (dispatchLocked c fo bs s).1 ≤ ownParked t0 s + 1 := by
+  rcases dispatchLocked_spec c fo bs s hna hS.ready_ne with
+    ⟨tasks, rest, hrd, he⟩ | ⟨hrd, lg, m, d, pl, r, hps, hcases⟩
+  · obtain ⟨lg, hd⟩ := dispatch_eq (c := c) (s := { s with ready := rest }) tasks hna
+    rw [he, hd]
+    exact (ownParked_append t0 s _ s.trk.length rfl).1
+  · rcases hcases with ⟨hr, hm, he⟩ | ⟨hr, hm, tasks, rest, htn, hrest, hsplit, hlens, he⟩ | ⟨hr, he⟩
+    · rw [he]; exact Nat.le_succ _
+    · obtain ⟨lg2, hd⟩ := dispatch_eq (c := c)
+        (s := { s with log := lg, srcPos := s.srcPos + m, srcDead := d, preLeft := pl, ready := rest }) tasks hna
+      rw [he, hd]
+      exact (ownParked_append t0 s _ s.trk.length rfl).1
+    · rw [he]
+      have hpend : getTrk { s with log := lg, srcPos := s.srcPos + m, srcDead := d, preLeft := pl, trk := s.trk ++ [errTrk s bs], jobs := if ordered c then s.jobs ++ [s.trk.length] else s.jobs, jobsSet := if ordered c then s.jobsSet else s.jobsSet ++ [s.trk.length] } s.trk.length = errTrk s bs := by
+        rw [getTrk_push (s := s) rfl]; simp
+      rw [registerOutcome_error (by rw [hpend]; rfl)]
+      exact Nat.le_succ _
+
+/-- `InvB` only reads the items of the trackers, the look-ahead queue, the input position, `preLeft` and the
+completed counter (which may grow). -/
+theorem InvB_mono {c : Cfg} {t0 : Nat} {s s' : St} (h : InvB c t0 s)
+    (hlen : s'.trk.length = s.trk.length) (hitems : ∀ j, (getTrk s' j).items = (getTrk s j).items)
+    (hready : s'.ready = s.ready) (hpos : s'.srcPos = s.srcPos) (hpre : s'.preLeft = s.preLeft)
+    (hnc : s.nCompleted ≤ s'.nCompleted) : InvB c t0 s' := by
+  refine ⟨fun i h0 h1 => by rw [hitems]; exact h.items_le i h0 (by omega), by rw [hready]; exact h.ready_le,
+    by rw [hready]; exact h.ready_tot, ?_⟩
+  intro hm
+  obtain ⟨r, h1, h2⟩ := h.budget hm
+  refine ⟨r, by rw [hpre]; exact h1, ?_⟩
+  rw [hpos]
+  have : s.nCompleted * (c.nj * bmax c) ≤ s'.nCompleted * (c.nj * bmax c) := Nat.mul_le_mul_right _ hnc
+  omega
+
+/-! ### unordered mode through `dispatchLocked` -/
+
+/-- What an unordered-mode call is still going to output, as a multiset: the batches not yet popped
+(`_jobs_set`, in creation order), the look-ahead queue, the rest of the input. -/
+def restU (s : St) : List Nat :=
+  (s.jobsSet.map (fun i => (getTrk s i).items)).flatten ++ s.ready.flatten ++
+    List.range' (s.base + s.srcPos) (s.spec.n - s.srcPos)
+
+/-- What a dispatch / completion step guarantees in unordered mode. -/
+structure UStep (t0 : Nat) (s s' : St) : Prop where
+  inv : InvU t0 s'
+  rest : s'.aborting = false → restU s' = restU s
+  rlen : (JoblibModel.ParallelProto.restU s').length ≤ (JoblibModel.ParallelProto.restU s).length
+
+theorem UStep.refl {t0 : Nat} {s : St} (h : InvU t0 s) : UStep t0 s s := ⟨h, fun _ => rfl, Nat.le_refl _⟩
+
+theorem UStep.trans {t0 : Nat} {a b d : St} (h1 : UStep t0 a b) (h2 : UStep t0 b d)
+    (hab : b.aborting = true → d.aborting = true) : UStep t0 a d := by
+  refine ⟨h2.inv, fun hd => ?_, Nat.le_trans h2.rlen h1.rlen⟩
+  have hb : b.aborting = false := by
+    cases hx : b.aborting with
+    | false => rfl
+    | true => rw [hab hx] at hd; simp at hd
+  rw [h2.rest hd, h1.rest hb]
+
+/-- The look-ahead / job-set / source part of the state is untouched and the items of the trackers are the same. -/
+theorem UStep.of_same {t0 : Nat} {s s' : St} (h : InvU t0 s')
+    (hitems : ∀ j, (getTrk s' j).items = (getTrk s j).items) (hjs : s'.jobsSet = s.jobsSet)
+    (hready : s'.ready = s.ready) (hpos : s'.srcPos = s.srcPos) (hbase : s'.base = s.base)
+    (hspec : s'.spec = s.spec) : UStep t0 s s' := by
+  have : restU s' = restU s := by simp only [restU, hjs, hready, hpos, hbase, hspec, hitems]
+  exact ⟨h, fun _ => this, by rw [this]; exact Nat.le_refl _⟩
+
+theorem restU_push {s s' : St} {t : Tracker} {rest : List (List Nat)} {m : Nat}
+    (htrk : s'.trk = s.trk ++ [t]) (hjs : s'.jobsSet = s.jobsSet ++ [s.trk.length])
+    (hown : ∀ i ∈ s.jobsSet, i < s.trk.length) (hready : s'.ready = rest) (hpos : s'.srcPos = s.srcPos + m)
+    (hsplit : t.items ++ rest.flatten = s.ready.flatten ++ List.range' (s.base + s.srcPos) m)
+    (hle : s.srcPos + m ≤ s.spec.n) (hbase : s'.base = s.base) (hspec : s'.spec = s.spec) :
+    restU s' = restU s := by
+  simp only [restU, hjs, hready, hpos, hbase, hspec, List.map_append, List.flatten_append, List.map_cons,
+    List.map_nil, List.flatten_cons, List.flatten_nil, List.append_nil]
+  rw [map_items_push htrk hown]
+  have : (getTrk s' s.trk.length).items = t.items := by rw [getTrk_push htrk]; simp
+  rw [this]
+  have hr : List.range' (s.base + s.srcPos) (s.spec.n - s.srcPos) =
+      List.range' (s.base + s.srcPos) m ++ List.range' (s.base + (s.srcPos + m)) (s.spec.n - (s.srcPos + m)) := by
+    rw [show s.base + (s.srcPos + m) = s.base + s.srcPos + 1 * m by omega, List.range'_append]
+    congr 1; omega
+  rw [hr]
+  simp only [List.append_assoc]
+  rw [← List.append_assoc t.items, hsplit]
+  simp [List.append_assoc]
+
+theorem dispatchLocked_U {c : Cfg} {t0 : Nat} {fo : Bool} {bs : Nat} {s : St} (ho : ordered c = false)
+    (hT : InvT c t0 none s) (hS : InvS c t0 s) (hna : s.aborting = false) (hU : InvU t0 s) :
+    UStep t0 s (dispatchLocked c fo bs s).1 := by
+  have hown : ∀ i ∈ s.jobsSet, i < s.trk.length := fun i hi => (hU.set_own i hi).2
+  rcases dispatchLocked_spec c fo bs s hna hS.ready_ne with
+    ⟨tasks, rest, hrd, he⟩ | ⟨hrd, lg, m, d, pl, r, hps, hcases⟩
+  · obtain ⟨lg, hd⟩ := dispatch_eq (c := c) (s := { s with ready := rest }) tasks hna
+    rw [he, hd]
+    have hr := restU_push (s := s) (s' := { s with ready := rest, log := lg, nDispTasks := s.nDispTasks + tasks.length, nDispBatches := s.nDispBatches + 1, trk := s.trk ++ [newTrk { s with ready := rest } tasks], jobs := if ordered c then s.jobs ++ [s.trk.length] else s.jobs, jobsSet := if ordered c then s.jobsSet else s.jobsSet ++ [s.trk.length], parked := s.parked ++ [s.trk.length] })
+      (t := newTrk { s with ready := rest } tasks) (rest := rest) (m := 0) rfl (by simp [ho]) hown rfl rfl
+      (by simp [newTrk, hrd]) hS.src_le rfl rfl
+    refine ⟨InvU_push hU hT.t0_le rfl rfl (by simp [ho]) (by simp [ho]), fun _ => hr, by rw [hr]; exact Nat.le_refl _⟩
+  · rcases hcases with ⟨hr, hm, he⟩ | ⟨hr, hm, tasks, rest, htn, hrest, hsplit, hlens, he⟩ | ⟨hr, he⟩
+    · subst hr; subst hm
+      rw [he]
+      exact UStep.of_same (InvU_frame hU rfl rfl rfl) (fun _ => rfl) rfl rfl rfl rfl rfl
+    · subst hr
+      obtain ⟨lg2, hd⟩ := dispatch_eq (c := c)
+        (s := { s with log := lg, srcPos := s.srcPos + m, srcDead := d, preLeft := pl, ready := rest }) tasks hna
+      rw [he, hd]
+      have hmn := hps.le_n hS.src_le
+      have hr := restU_push (s := s) (s' := { s with log := lg2, srcPos := s.srcPos + m, srcDead := d, preLeft := pl, ready := rest, nDispTasks := s.nDispTasks + tasks.length, nDispBatches := s.nDispBatches + 1, trk := s.trk ++ [newTrk { s with log := lg, srcPos := s.srcPos + m, srcDead := d, preLeft := pl, ready := rest } tasks], jobs := if ordered c then s.jobs ++ [s.trk.length] else s.jobs, jobsSet := if ordered c then s.jobsSet else s.jobsSet ++ [s.trk.length], parked := s.parked ++ [s.trk.length] })
+        (t := newTrk { s with log := lg, srcPos := s.srcPos + m, srcDead := d, preLeft := pl, ready := rest } tasks)
+        (rest := rest) (m := m) rfl (by simp [ho]) hown rfl rfl (by simp [newTrk, hrd, hsplit]) hmn rfl rfl
+      refine ⟨InvU_push hU hT.t0_le rfl rfl (by simp [ho]) (by simp [ho]), fun _ => hr,
+        by rw [hr]; exact Nat.le_refl _⟩
+    · subst hr
+      rw [he]
+      have hpend : getTrk { s with log := lg, srcPos := s.srcPos + m, srcDead := d, preLeft := pl, trk := s.trk ++ [errTrk s bs], jobs := if ordered c then s.jobs ++ [s.trk.length] else s.jobs, jobsSet := if ordered c then s.jobsSet else s.jobsSet ++ [s.trk.length] } s.trk.length = errTrk s bs := by
+        rw [getTrk_push (s := s) rfl]; simp
+      rw [registerOutcome_error (by rw [hpend]; rfl), hpend]
+      simp only [set_append_last]
+      have hmn := hps.le_n hS.src_le
+      refine ⟨InvU_pushErr (t := { errTrk s bs with status := .error, result := .exc (.iter (s.base + (s.srcPos + m))) })
+        hU hT.t0_le (by simp) rfl (by simp [ho]) (by simp [ho]), fun ha => by simp at ha, ?_⟩
+      -- only the length matters once aborting
+      simp only [restU, ho, Bool.false_eq_true, if_false, List.map_append, List.flatten_append, List.map_cons,
+        List.map_nil, List.flatten_cons, List.flatten_nil, List.append_nil, List.length_append, List.length_range']
+      have e1 : (List.map (fun i => (getTrk { s with log := lg, srcPos := s.srcPos + m, srcDead := d, preLeft := pl, trk := s.trk ++ [{ errTrk s bs with status := .error, result := .exc (.iter (s.base + (s.srcPos + m))) }], jobs := s.jobs ++ [s.trk.length], jobsSet := s.jobsSet ++ [s.trk.length], exception := true, aborting := true } i).items) s.jobsSet) =
+          List.map (fun i => (getTrk s i).items) s.jobsSet := by
+        apply List.map_congr_left
+        intro i hi
+        rw [getTrk_push (s := s) rfl]; simp [hown i hi]
+      have e2 : (getTrk { s with log := lg, srcPos := s.srcPos + m, srcDead := d, preLeft := pl, trk := s.trk ++ [{ errTrk s bs with status := .error, result := .exc (.iter (s.base + (s.srcPos + m))) }], jobs := s.jobs ++ [s.trk.length], jobsSet := s.jobsSet ++ [s.trk.length], exception := true, aborting := true } s.trk.length).items = [] := by
+        rw [getTrk_push (s := s) rfl]; simp [errTrk]
+      rw [e1, e2]
+      simp only [List.length_nil]
+      omega
 
 end JoblibModel.ParallelProto
